@@ -8,23 +8,7 @@ from props.c01 import compare_case
 FIELDS = ["href", "host", "hostname", "port", "hosttype"]
 
 
-def disguise(rng, h):
-    """an IPv4 spelling that does not look like ASCII digits and dots until domain-to-ASCII has run: percent-escapes,
-    full-width digits, ideographic / full-width / half-width full stops (these take the slow path of the host parser)"""
-    out = []
-    for ch in h.decode("ascii"):
-        r = rng.random()
-        if r < 0.12:
-            out.append("%%%02x" % ord(ch) if rng.random() < 0.5 else "%%%02X" % ord(ch))
-        elif r < 0.2 and ch.isdigit():
-            out.append(chr(0xFF10 + int(ch)))
-        elif r < 0.3 and ch == ".":
-            out.append(rng.choice(["\u3002", "\uff0e", "\uff61"]))
-        elif r < 0.25 and ch in "xXabcdefABCDEF":
-            out.append(chr(ord(ch) - 0x41 + 0xFF21) if ch.isupper() else chr(ord(ch) - 0x61 + 0xFF41))
-        else:
-            out.append(ch)
-    return "".join(out).encode("utf-8")
+disguise = genlib.disguise
 
 
 def host_cases(rng, n):
@@ -120,6 +104,19 @@ def check(run):
                 if st != "ok" or any(steps[0].get(k) != last.get(k) for k in ("href", "host", "hosttype")):
                     run.violation(f"reparse-host:{hx(h)}", f"{T[3:]}: re-parsing {h!r} does not give the same host/kind "
                                   f"({st}, {unhx(steps[0]['href']) if steps else b''!r})", lines=[r[T + "_line"]])
+    # the AVX-512 build has its own IPv4 / IPv6 pre-filters: the IP cases once more against the Spec on that build
+    if lib.cpu_has_avx512():
+        b512, err512 = lib.build_harness("avx512")
+        run.oblige("build:harness(avx512)", b512 is not None, (err512 or "")[-300:])
+        if b512 is not None:
+            ipcases = [r["case"] for r in res if any(ch in r["case"][0] + (r["case"][1] or b"") + b"".join(v for _, v in r["case"][2])
+                                                     for ch in (b"[", b"0x", b"0X")) or r["seqagg"][0] != "ok"][: (6000 if run.tier == "quick" else 60000)]
+            res512 = urlcorr.explore(run, b512, ipcases)
+            if res512 is not None:
+                for r in res512:
+                    run.count()
+                    compare_case(run, r, "host-avx512", fields=FIELDS, flags=False)
+                run.extra["avx512_cases_compared_with_spec"] = len(res512)
     for r in res[-3:]:
         run.sample(urlcorr.describe(r["case"]))
     run.oblige("corr:impl-vs-spec(hosts)", True)
